@@ -129,6 +129,7 @@ let run (path : String.t) =
         let add v = (add v; if had_failures && (v = "c02" || v = "c10") then add "c08") in
         if fin = "quiesce" && not was_closed && not (obs_replies_delivered evs) then (add "c02"; add "c09"; why := "replies_delivered" :: !why);
         if not was_closed && not (obs_c10_final_ok evs) then (add "c10"; add "c09"; why := "c10_final" :: !why);
+        if not was_closed && not (obs_c11_replier_answered evs) then (add "c11"; why := "replier_registration_taken_and_then_neither_served_nor_told" :: !why);
         if fin = "quiesce" && not was_closed && not (obs_requests_flushed evs) then (add "c02"; add "c09"; why := "requests_flushed" :: !why);
         if fin = "quiesce" && not was_closed && not (obs_rstreams_polled_to_pending evs) then (add "c09"; add "c11"; add "c02"; why := "stream_left_ready" :: !why);
         if fin = "quiesce" && not was_closed && not (obs_no_request_stranded evs) then (add "c02"; add "c08"; add "c11"; why := "request_stranded" :: !why);
